@@ -42,7 +42,14 @@ class C03(Prop):
 
     def exhaustive_cases(self, tier, rng):
         # real-world corpus: stdlib / site-packages modules through reformat and tidy
-        return R.file_corpus_cases(700 if tier == "thorough" else 12, rng)
+        out = R.file_corpus_cases(700 if tier == "thorough" else 12, rng)
+        # the real command line tool, run twice on a temp file (database through PYFLYBY_PATH)
+        for i in range(150 if tier == "thorough" else 6):
+            c = R.gen_rewriter_case(rng, tool="tidy")
+            c["cli"] = True
+            c["params"] = {}
+            out.append(c)
+        return out
 
     def gen_case(self, rng, i, tier):
         r = rng.random()
@@ -54,7 +61,45 @@ class C03(Prop):
         c = R.gen_rewriter_case(rng, **{k: v for k, v in kw.items() if k != "max_items"})
         return c
 
+    def _run_cli(self, case):
+        """bin/tidy-imports --replace, twice, on a temp copy; returns obs in the same shape as the in-process run"""
+        import os, shutil, subprocess, sys, tempfile
+        from vcommon import REPO
+        d = tempfile.mkdtemp(prefix="pfbverif_c03cli_")
+        obs = {}
+        try:
+            f = os.path.join(d, "mod.py")
+            open(f, "w").write(case["text"])
+            dbf = os.path.join(d, "db.py")
+            src = "".join(s + "\n" for s in case.get("known", []))
+            if case.get("mandatory"):
+                src += "__mandatory_imports__ = %r\n" % (list(case["mandatory"]),)
+            open(dbf, "w").write(src)
+            env = dict(os.environ, PYFLYBY_PATH=dbf, PYTHONPATH=os.path.join(REPO, "lib", "python"), PYFLYBY_LOG_LEVEL="ERROR")
+            fl = case.get("flags", {})
+            args = [sys.executable, os.path.join(REPO, "bin", "tidy-imports"), "--replace", "--quiet",
+                    "--add-missing" if fl.get("add_missing", True) else "--no-add-missing",
+                    "--remove-unused" if fl.get("remove_unused", True) else "--no-remove-unused",
+                    "--add-mandatory" if fl.get("add_mandatory", True) else "--no-add-mandatory", f]
+            p = subprocess.run(args, env=env, stdout=subprocess.PIPE, stderr=subprocess.PIPE, text=True, timeout=120)
+            if p.returncode != 0:
+                obs["err"] = "cli-exit-%d" % p.returncode
+                obs["errmsg"] = p.stderr[-300:]
+                return obs
+            obs["out"] = open(f).read()
+            p = subprocess.run(args, env=env, stdout=subprocess.PIPE, stderr=subprocess.PIPE, text=True, timeout=120)
+            if p.returncode != 0:
+                obs["err2"] = "cli-exit-%d" % p.returncode
+                obs["errmsg2"] = p.stderr[-300:]
+            else:
+                obs["out2"] = open(f).read()
+            return obs
+        finally:
+            shutil.rmtree(d, ignore_errors=True)
+
     def run_impl(self, case):
+        if case.get("cli"):
+            return self._run_cli(case)
         obs = {}
         try:
             obs["out"] = R.run_tool(case)
